@@ -8,6 +8,8 @@ KINDS = [
         par('s'), par('i'), par('b'), par('n', default=None), par('lst'), par('dct'),
         par('pth', dtype=__import__('pathlib').Path), par('tpl'), par('dd', default='dflt', dpdv=True),
         par('ig', default=0, ignore=True), par('nc', nic='name_conf'),
+        par('pdef', dtype=__import__('pathlib').Path, default='some/dir'),
+        par('pdef2', dtype=__import__('pathlib').Path, default='other', dpdv=True),
     ]),
     P('After', inputs=[inp('Kinds')], params=[par('z', default=1.5)]),
 ]
